@@ -50,8 +50,6 @@ var (
 	VerifChecksumComp            = checksumComp
 	VerifIsZeroPage              = isZeroPage
 	VerifPgChecksumBlock         = pgChecksumBlock
-	VerifFindConfigSection       = findConfigSection
-	VerifFindStorageSection      = findStorageSection
 	VerifFormatLSN               = formatLSN
 	VerifFormatWALFilename       = formatWALFilename
 	VerifPgEpochToTime           = pgEpochToTime
